@@ -1972,7 +1972,8 @@ theorem pinv_step_main {P : Program} {d : DagRef} (hp : PlainP P d) {s : St} (h 
     obtain rfl := Option.some.inj hs
     have ht := topoOrd_of_validOrder hp h.quiet h2 c.ord (by rw [← hcP]; exact (horacle d rfl) ▸ (by rw [hcP]))
     subst h1
-    simp only [dagInit, hp.notRec, Bool.false_eq_true, if_false]
+    have hvo : validOrder c.P s d c.ord = true := by rw [hcP]; exact horacle d rfl
+    simp only [dagInit, hp.notRec, Bool.false_eq_true, if_false, hvo, noteOrder_true, if_true]
     split
     · next hnil =>
       -- the order cannot be empty: the output node is in it
